@@ -10,8 +10,8 @@ from .common import func_params, value_returns, last_return
 
 PROPERTY = 'C11'
 EXPLANATION = (
-    'Decided from source: (C11.1) every insertion into the maps returned by Reader.read_cells is dominated by the '
-    '"sheet is ignored -> skip" test; (C11.2) the ignore_sheets parameter reaches the filter of read_defined_names and '
+    'Decided from source: (C11.1) Reader.read_cells, partially evaluated on an abstract workbook with an ignored and a kept '
+    'sheet, puts no key of the ignored sheet and every cell of the kept sheet into the maps it returns; (C11.2) the ignore_sheets parameter reaches the filter of read_defined_names and '
     'both readers receive the caller\'s ignore list; (C11.3) what a formula cell stores: address = sheet!coordinate, '
     'formula text -> XLFormula with the cell\'s sheet, cached value (cvalue) -> XLCell.value, otherwise value -> XLCell.value '
     'and no formula, both maps receive the formula; the openpyxl patch captures the cached value next to the formula; '
